@@ -114,6 +114,17 @@ CLAIMED = {
    note=TB + "`git rev-list` semantics are git's (used as a spec in the upload-set comparison); the premise 'listed objects are on the server after exit 0' rests on C06/C15 and the queue's error reporting. D23 and D24 are known findings.",
    technique="Lean 4 proof (set-level refinement with explicit premises + decided counterexamples) + scenario correspondence on real repositories",
    ref="§5 C03, Appendix M"),
+ "C18": dict(
+   text="Lean theorems over a JSON value type, the JSON-Schema fragment of the published schemas and Go's struct encoding driven by the struct-tag tables regenerated from tq/api.go, tq/transfer.go, tq/verify.go and locking/api.go: "
+        "for EVERY operation, object list, adapter list and ref name the batch request validates against docs/api/schemas/http-batch-request-schema.json (schemas regenerated from the JSON files on every run) provided ids are non-empty and sizes "
+        "non-negative (and a negative size is decided invalid); it names exactly the caller's objects with their sizes and leaks no other Transfer field; lock creation and deletion requests validate for EVERY path/ref name incl. the empty one; "
+        "lock verification (limit >= 0) and object verification validate against the documented shapes; only sha256 or no hash algorithm is accepted in a batch response. Correspondence: the real tq.Batch and locking client are run in process on "
+        "generated inputs and every captured body is compared with the model's encoding of the same inputs; every request captured from real-binary scenarios (push incl. lock verification, git lfs push, clone/fetch/pull, lock/unlock/locks with filters, "
+        "limits, --verify, paginating server) is validated by the repo's own schema files (gojsonschema) AND by the model's validator (they must agree), headers, action use (method, URL, supplied header) and objects-asked are judged; "
+        "unsupported hash_algo values and single-field corruptions of batch/lock responses are injected.",
+   note=TB + "JSON text is compared after canonicalisation (member order kept, strings hex-encoded): Go's string escaping is not modelled. The request shapes of lock verification and object verification are transcribed by hand from docs/api/locking.md and basic-transfers.md (no schema file is published). The GET /locks query is judged by the harness oracle only. ssh (pure SSH protocol) requests are out of scope. D10, D32, D33, D34 fixed in /repo.",
+   technique="Lean 4 proof (schema validation of the model's struct encoder by simp over regenerated schemas and tag tables, list induction for the object array) + differential correspondence vs tq.Batch / locking client + schema validation of every captured request",
+   ref="§5 C18"),
 }
 PENDING_REASON = "check not built yet in this session (build in progress, see DESIGN.md §10); not claimed until its theorems and correspondence run"
 ALL = ["C%02d" % i for i in range(1, 21)]
